@@ -99,6 +99,22 @@ def run(ctx):
             if PP.agg(variant='Err', _0=PP.agg(variant='MalformedTransaction'))(val) and any(c[0] == 'is' and set(c[2]) & {'Err', 'Break'} for c in conds):
                 mal = True
     ctx.check(mal, 'R1', 'error-kind', dec, 'decode failure is reported as MalformedTransaction', 'decode failure is not mapped to MalformedTransaction')
+    # "if and only if": the decode failure is the only refusal that is not one of the two guards —
+    # every Err return is conditioned on the decoder's failure, and the sync gate is not consulted
+    from sa.util import table as _table
+    from sa import pat as _P
+    rows = _table(prog, F)
+    isdec = lambda x: isinstance(x, tuple) and x[0] == 'call' and glob_any(x[1], list(EXACT) + list(PARTIAL))
+    errs = [r for r in rows if _P.agg(variant='Err')(r[1]) or (isinstance(r[1], tuple) and r[1][0] == 'call' and r[1][1].endswith('from_residual'))]
+    stray = [r for r in errs if not any(isinstance(c, tuple) and c[0] == 'is' and set(c[2]) & {'Err', 'Break'} and any(isdec(x) for x in walk(c[1])) for c in r[2])]
+    ctx.check(bool(errs) and not stray, 'R1', 'refusal-only-on-decode-failure', F.where(stray[0][0]) if stray else F,
+              'the only error return of send_transaction is the decoder\'s failure',
+              'send_transaction refuses a request for a reason other than a failed decode: %s' % [(show(r[1])[:60], [show(c)[:80] if c[0] not in ('is', 'switch') else c[0] for c in r[2]][-2:]) for r in stray][:2])
+    vs = prog.fn('ic_btc_canister::verify_synced', required=False)
+    if vs is not None:
+        reach = prog.reach([prog.root_of(F)])
+        ctx.check(vs.id not in reach, 'R1', 'no-sync-gate', F, 'send_transaction does not depend on the sync status (only access flag and network gate it)',
+                  'send_transaction reaches verify_synced: a well-formed transaction is refused while the canister is behind')
     # ---------------- R2 -----------------------------------------------------------------------
     for i, d in enumerate(decs):
         src = e.operand(d.args[0])
